@@ -64,11 +64,24 @@ type VerifScriptConn struct {
 	Deadline    time.Time
 	Remote      net.Addr
 	TimedOut    bool
+	pending     []byte // rest of a segment that did not fit the caller's buffer
+	pendingErr  error
 }
 
 func (c *VerifScriptConn) Read(p []byte) (int, error) {
 	if c.Closed > 0 {
 		return 0, net.ErrClosed
+	}
+	if len(c.pending) > 0 {
+		n := copy(p, c.pending)
+		c.ReadData = append(c.ReadData, c.pending[:n]...)
+		c.pending = c.pending[n:]
+		if len(c.pending) == 0 {
+			err := c.pendingErr
+			c.pendingErr = nil
+			return n, err
+		}
+		return n, nil
 	}
 	if c.Rpos >= len(c.Reads) {
 		if c.Deadline.IsZero() {
@@ -79,22 +92,23 @@ func (c *VerifScriptConn) Read(p []byte) (int, error) {
 		return 0, VerifErr(3, "read")
 	}
 	r := c.Reads[c.Rpos]
-	n := r.N
-	if n > len(p) {
-		n = len(p)
-	}
 	var data []byte
 	if c.Rpos < len(c.Data) && c.Data[c.Rpos] != nil {
-		data = c.Data[c.Rpos][:n]
+		data = c.Data[c.Rpos][:r.N]
 	} else {
-		data = verifnd.Bytes(c.Name+".data", n)
+		data = verifnd.Bytes(c.Name+".data", r.N)
 		for _, b := range data {
 			verifnd.Prefer(b == 0) // report the simplest stream of the counterexample's class
 		}
 	}
 	c.Rpos++
-	copy(p, data)
-	c.ReadData = append(c.ReadData, data...)
+	n := copy(p, data)
+	c.ReadData = append(c.ReadData, data[:n]...)
+	if n < len(data) {
+		// a segment larger than the caller's buffer: the rest stays in the socket buffer
+		c.pending, c.pendingErr = data[n:], r.Err
+		return n, nil
+	}
 	return n, r.Err
 }
 
